@@ -1,4 +1,5 @@
 import ShmVerif.Props.C06
+import ShmVerif.Proof.Payload
 /-!
   C08 — zero-copy read results stay valid until they are released.
 
@@ -98,5 +99,47 @@ theorem c08_writers_leave_foreign_payload (ops : List WriteOp) (m : Mem) (l : LB
       ∀ p, p ∉ l.sl.filterMap (·.slot) → p ∉ m.free.flatten → (m'.slot p).data = (m.slot p).data := by
   obtain ⟨m', l', e, _, _, _, _, hfr⟩ := c06_writer_refines_bytequeue ops m l hw hb
   exact ⟨m', l', e, hfr.data⟩
+
+/-! ### in a stream pair nobody else writes what a reader holds -/
+
+open LB in
+/-- **No foreign write.** In a pair of streams over one memory (`LB.PSys`; any reachable state, i.e. any state satisfying the
+    pair invariant), whatever operation either end performs - writer calls allocating and filling buffers, Flush on either
+    transport, readMore, any reader call, ReleasePreviousRead, Close - the payload of every slot that a receive buffer lists
+    or has parked (what ReadBytes / Peek results point into) and of every slot of a message still in flight is left
+    byte for byte as it was.  So a zero-copy result can only change after its own slot has left the receive buffer, which
+    the buffer-level theorems above tie to ReleasePreviousRead / Close. -/
+theorem c08_pair_no_foreign_write {N : Nat} {s s' : PSys} {op : POp} (h : PInv N s) (e : pstep s op = some s') (p : Nat)
+    (hp : p ∈ heldL s.a.recv ∨ p ∈ heldL s.b.recv ∨ p ∈ flight s.m s.a.pending ∨ p ∈ flight s.m s.b.pending) :
+    (s'.m.slot p).data = (s.m.slot p).data := by
+  have h7 := PI.seven h p
+  have pos : 0 < (heldL s.a.recv).count p + (heldL s.b.recv).count p + (flight s.m s.a.pending).count p +
+      (flight s.m s.b.pending).count p := by
+    rcases hp with hp | hp | hp | hp <;> (have := List.count_pos_iff.mpr hp; omega)
+  exact pstep_payload h e p (fc_zero.mp (by omega)) (List.count_eq_zero.mp (by omega)) (List.count_eq_zero.mp (by omega))
+
+open LB in
+/-- the same along a whole run, for a slot that stays where it is: as long as slot `p` is held by a receive buffer or in
+    flight after every step, its payload at the end is its payload at the start -/
+theorem c08_pair_view_stable {N : Nat} : ∀ (ops : List POp) (s s' : PSys), PInv N s → prun s ops = some s' →
+    (∀ (k : Nat) (sk : PSys), k ≤ ops.length → prun s (ops.take k) = some sk →
+      (p ∈ heldL sk.a.recv ∨ p ∈ heldL sk.b.recv ∨ p ∈ flight sk.m sk.a.pending ∨ p ∈ flight sk.m sk.b.pending)) →
+    (s'.m.slot p).data = (s.m.slot p).data
+  | [], s, s', _, e, _ => by
+    simp only [prun, Option.some.injEq] at e
+    subst e; rfl
+  | op :: r, s, s', h, e, hall => by
+    unfold prun at e
+    cases hs : pstep s op with
+    | none => rw [hs] at e; cases e
+    | some s1 =>
+      rw [hs] at e
+      have h0 := hall 0 s (Nat.zero_le _) (by simp [prun])
+      have d1 := c08_pair_no_foreign_write h hs p h0
+      have d2 := c08_pair_view_stable r s1 s' (pstep_inv h hs) e (fun k sk hk hrun => by
+        apply hall (k + 1) sk (by simp; omega)
+        simp only [List.take_succ_cons, prun, hs]
+        exact hrun)
+      rw [d2, d1]
 
 end Props.C08
